@@ -178,4 +178,14 @@ PROPS = {
             {"name": "c08.concurrent", "pkg": STORAGE, "test": "TestVerifC08Concurrent", "shards_t": 8},
         ],
     },
+    "C14": {
+        "level": "exploration",
+        "technique": "stateful rapid property test on a real Core with scripted convergence layers and agents (node simulator); ID-uniqueness oracle over wire bytes and store contents",
+        "level_text": "Groups of bundles with coinciding source and creation time are submitted through every submission path, sequentially and concurrently, with and without connected peers, across retry ticks and an orderly restart; the oracle inspects the bytes handed to the scripted convergence layers and the store after every step.",
+        "level_note": "creation times are 'now' or the epoch (the IdKeeper forgets older non-epoch timestamps by design); node-generated status reports are covered by C15's scenarios",
+        "assumptions": ["cron jobs are unregistered and played as explicit events"],
+        "units": [
+            {"name": "c14.groups", "pkg": ROUTING, "test": "TestVerifC14Groups", "shards_t": 16, "shards_q": 4, "crash_is_violation": True},
+        ],
+    },
 }
